@@ -258,7 +258,7 @@ fn c14_szx_z80r_halted_keeps_pc() {
 // @tier quick
 // @timeout 600
 // @fn szx::process_z80r_block; Z80::reset_control_state; Z80::emulate (to create and to observe the pending prefix)
-// @sym every Z80R field; receiver executed DD DD just before the load
+// @sym every Z80R field; receiver executed DD DD, DD FD or DD ED just before the load
 // @assert after the Z80R chunk the next opcode is decoded unprefixed (was KF-C14-1)
 // @bound one chunk, 48K; one instruction on a 4-byte bus to observe
 // @assume receiver between DD and its opcode (the region excluded from c14_szx_z80r_running)
@@ -282,7 +282,7 @@ fn c14_szx_z80r_into_prefixed_cpu() {
 // @timeout 300
 // @fn Z80::emulate
 // @sym registers
-// @assert self-check of the observation device: a CPU that executed DD DD reports a pending prefix, a fresh CPU does not, and reset_control_state clears it
+// @assert self-check of the observation device: a CPU that executed DD DD, DD FD or DD ED reports a pending prefix, a fresh CPU does not, and reset_control_state clears it
 // @bound three instruction steps on a 4-byte bus
 #[kani::proof]
 #[kani::unwind(8)]
